@@ -382,6 +382,15 @@ def install(interp, world):
         asyncio.ensure_future: m_create_task, asyncio.get_running_loop: m_loop, asyncio.get_event_loop: m_loop,
         os.write: m_os_write, os.close: m_os_close,
     }
+    def m_queue_put_nowait(interp_, q, item):
+        # asyncio.Queue.put_nowait on an object of a repo subclass (DistributorQueue): ghost list of delivered items
+        q.fields.setdefault("_delivered", []).append(item)
+
+    def m_queue_qsize(interp_, q):
+        return len(q.fields.get("_delivered", []))
+
+    funcs[asyncio.Queue.put_nowait] = m_queue_put_nowait
+    funcs[asyncio.Queue.qsize] = m_queue_qsize
     interp.local_class_models = table
     interp.local_function_models = funcs
     interp.world = world
